@@ -21,12 +21,13 @@ Lemma cut_short_terminates_spec : cut_short_terminates = true. Proof. vm_compute
 Lemma start_workers_resets_spec : start_workers_resets = true. Proof. vm_compute. reflexivity. Qed.
 Lemma apply_params_spec : apply_sets_params_only_when_starting = true. Proof. vm_compute. reflexivity. Qed.
 Lemma apply_mode_spec : apply_mode_reset_per_task = true. Proof. vm_compute. reflexivity. Qed.
+Lemma apply_cleanup_spec : apply_phase_failure_cleaned_up = true. Proof. vm_compute. reflexivity. Qed.
 Lemma idle_death_spec : idle_death_reported_once = true. Proof. vm_compute. reflexivity. Qed.
 Lemma eq_compares_all_fields_spec : eq_compares_all_fields = true. Proof. vm_compute. reflexivity. Qed.
 
 Ltac facts := rewrite ?setters_reset_comms_spec, ?changed_settings_restart_spec, ?new_params_shipped_spec,
   ?fresh_workers_when_none_spec, ?helper_chosen_per_chunk_spec, ?lifespan_read_from_current_params_spec,
-  ?ordered_calls_set_and_clear_flag_spec, ?failure_terminates_and_clears_spec, ?cut_short_terminates_spec, ?start_workers_resets_spec, ?idle_death_spec, ?apply_mode_spec, ?apply_params_spec in *.
+  ?ordered_calls_set_and_clear_flag_spec, ?failure_terminates_and_clears_spec, ?cut_short_terminates_spec, ?start_workers_resets_spec, ?idle_death_spec, ?apply_mode_spec, ?apply_params_spec, ?apply_cleanup_spec in *.
 
 Lemma opt_eqb_eq a b : opt_eqb a b = true -> a = b.
 Proof. destruct a, b; cbn; intros H; try discriminate; try reflexivity. apply Nat.eqb_eq in H. congruence. Qed.
@@ -58,7 +59,7 @@ Lemma hstep_HI s o : HI s -> HI (fst (hstep s o)) /\
                o_gen ob = (if alive s && initialized s then gen s else S (gen s))
   | None => True end.
 Proof.
-  intros (Hst & Hk & Hl & Hp). destruct o as [ordered mp out|l|b| | |amp]; cbn [hstep fst snd]; facts.
+  intros (Hst & Hk & Hl & Hp). destruct o as [ordered mp out|l|b| | |amp|amp]; cbn [hstep fst snd]; unfold happly; facts.
   - (* a call *)
     assert (Hns : alive s = true -> stale_err s = false).
     { intros Ha. destruct (stale_err s) eqn:E; [rewrite (Hst eq_refl) in Ha; discriminate|reflexivity]. }
@@ -99,6 +100,9 @@ Proof.
     rewrite ?apply_params_spec. destruct (alive s) eqn:Ha; cbn [fst snd]; (split; [|exact I]); unfold HI; cbn [alive gen w_layout w_params w_ordered initialized keep_order p_layout p_keep_alive p_params stale_err].
     + repeat split; auto; intros; try discriminate; try (rewrite Ha in *; discriminate).
     + repeat split; auto; intros; discriminate.
+  - (* the apply phase fails pool-wide: the stored error comes with no live workers for the next call *)
+    split; [|exact I]. destruct (alive s) eqn:Ha; unfold HI; cbn [alive gen w_layout w_params w_ordered initialized keep_order p_layout p_keep_alive p_params stale_err];
+      repeat split; auto; intros; discriminate.
 Qed.
 
 Lemma hinit_HI l k : HI (hinit l k).
@@ -203,7 +207,7 @@ Lemma same_future_step s t o : same_future s t ->
   same_future (fst (hstep s o)) (fst (hstep t o)) /\
   option_map strip (snd (hstep s o)) = option_map strip (snd (hstep t o)).
 Proof.
-  intros (Hk & Hl & Hka & Hw). destruct o as [ordered mp out|l|b| | |amp]; cbn [hstep fst snd]; facts.
+  intros (Hk & Hl & Hka & Hw). destruct o as [ordered mp out|l|b| | |amp|amp]; cbn [hstep fst snd]; unfold happly; facts.
   - destruct Hw as [[Ha Hb]|(Ha & Hi & Hwl & Hwp & Hwo & Hpp)].
     + rewrite Ha, Hb, Hk, Hl, Hka. cbn. destruct out; cbn; (split; [unfold same_future; cbn; repeat split; auto|reflexivity]);
       right; repeat split; auto.
@@ -221,6 +225,10 @@ Proof.
       right. repeat split; auto.
     + rewrite Ha. destruct (alive t) eqn:Hat; cbn [fst snd]; (split; [|reflexivity]); unfold same_future; cbn; rewrite ?Hk, ?Hl, ?Hka; repeat split; auto;
         right; rewrite ?Hat; repeat split; auto.
+  - split; [|reflexivity].
+    destruct Hw as [[Ha Hb]|(Ha & Hi & Hwl & Hwp & Hwo & Hpp)].
+    + rewrite Ha, Hb. unfold same_future; cbn. rewrite Hk, Hl, Hka. repeat split; auto.
+    + rewrite Ha. destruct (alive t) eqn:Hat; unfold same_future; cbn; rewrite ?Hk, ?Hl, ?Hka; repeat split; auto.
 Qed.
 
 Lemma same_future_run : forall h s t, same_future s t -> map strip (hrun s h) = map strip (hrun t h).
@@ -248,6 +256,20 @@ Proof.
   left. split; [assumption|reflexivity].
 Qed.
 
+(* the same after a failure of the APPLY phase that stops the workers (worker_init / worker_exit raising or timing
+   out while apply tasks are served): the next call or apply_async cleans up first *)
+Theorem post_apply_failure_fresh l k h mp later :
+  let s := fst (hstep (hstate (hinit l k) h) (HApplyFails mp)) in
+  map strip (hrun s later) = map strip (hrun (hinit (p_layout s) (p_keep_alive s)) later).
+Proof.
+  intros s. apply same_future_run.
+  assert (HIs : HI s) by (apply hstep_HI; apply hstate_HI; apply hinit_HI).
+  destruct HIs as (_ & Hk & _ & _).
+  assert (Ha : alive s = false) by (unfold s; cbn [hstep fst]; facts; reflexivity).
+  unfold same_future, hinit; cbn. split; [assumption|]. split; [reflexivity|]. split; [reflexivity|].
+  left. split; [assumption|reflexivity].
+Qed.
+
 (* a call that fails in worker_init / worker_exit / the main process surfaces its OWN error, never
    one stored by an earlier call: whenever such an error is still stored, no workers are alive, so
    the call starts workers, which resets the three permanent result objects *)
@@ -256,7 +278,7 @@ Proof.
   assert (H : forall h s, HI s -> Forall (fun b => b = true) (hfails s h)).
   { induction h0 as [|o r IH]; intros s HIs; cbn [hfails]; [constructor|].
     apply Forall_app. split; [|apply IH; apply (hstep_HI s o HIs)].
-    destruct o as [ordered mp out|?|?| | |?]; cbn [surfaces_own]; try constructor.
+    destruct o as [ordered mp out|?|?| | |?|?]; cbn [surfaces_own]; try constructor.
     destruct out; try constructor; [|constructor]. facts.
     destruct HIs as (Hst & _). destruct (stale_err s) eqn:E; [rewrite (Hst eq_refl); cbn; reflexivity|].
     destruct (alive s && negb (initialized s)); destruct (alive s); cbn; reflexivity. }
